@@ -574,11 +574,53 @@ def r12(ctx):
                   "clear issues its delete also when the hole holds no bytes: behind a truncated tail the zero-length delete lies beyond the end of the store and fails, after the drop entry was logged", key="C01|C01.R12|clear|empty hole")
 
 
-RULES = [r1, r2, r3, r4, r5, r6, r7, r8, r8b, r9, r10, r11, r12]
+def r13(ctx):
+    """a delete is only handed to a backend when it starts inside the store: a store shrinks when a
+    hole reaches its end (both backends turn such a delete into a truncate), so the offset of a
+    block that is cleared again can lie beyond the end, where both backends refuse the delete — the
+    clear of an already cleared range then fails instead of doing nothing (defect D22).  Clause:
+    every RandomAccess::del call is dominated by `offset < len()` (or <=) on the same backend."""
+    rule = "C01.R13"
+    from .c09 import dominating_conditions
+    n = 0
+    for fa in ctx.all_fas():
+        if "::tests::" in fa.body.name:
+            continue
+        for s_ in sites(fa, RA_DEL):
+            n += 1
+            recv = term_sig(fa.arg_origin(s_, 0))
+            off = term_sig(fa.arg_origin(s_, 1))
+            guard = False
+            for o, tr, _ in dominating_conditions(fa, s_):
+                if not isinstance(tr, bool):
+                    continue
+                o, neg = canon_cond(o)
+                if neg:
+                    tr = not tr
+                if not (isinstance(o, tuple) and o[0] == "bin" and o[1] == "Lt"):
+                    continue
+                def is_len(x):
+                    for y in subterms(x):
+                        if isinstance(y, tuple) and y[0] == "call" and y[2] == RA_LEN and y[3] and term_sig(y[3][0]) == recv:
+                            return True
+                    return False
+                # offset < len  (true branch)   or   not (len < offset), i.e. offset <= len (false branch)
+                if tr is True and term_sig(o[2]) == off and is_len(o[3]):
+                    guard = True
+                if tr is False and term_sig(o[3]) == off and is_len(o[2]):
+                    guard = True
+            ctx.check(P, rule, "%s deletes only what starts inside the store" % fn_of(fa.body.name).split("::")[-1], guard, "del(offset, ..) only under offset < len() of the same backend",
+                      "the delete at %s is handed to the backend whatever the length of the store: once a clear has shrunk the data store (a hole that reaches the end truncates it), clearing a block again whose offset lies beyond the end fails with OutOfBounds instead of doing nothing" % loc(fa, s_),
+                      [site_desc(fa, s_)], key="C01|C01.R13|%s|delete beyond the end" % fn_of(fa.body.name).split("::")[-1])
+    if ctx.crate.name == "hypercore" and n < 1:
+        ctx.missing(P, rule, "RandomAccess::del call sites", "none found")
+
+
+RULES = [r1, r2, r3, r4, r5, r6, r7, r8, r8b, r9, r10, r11, r12, r13]
 EXPLANATION = ("C01 (log contents equal an append-only list model across reopen): decides the replay codec agreement of the oplog Entry — each optional section is decoded under the flag bit it was "
                "encoded with, flags 1/2/4/8, same presence conditions in size and encode (R1); replay completeness — every field of Entry reaches its consumer inside the replay loop of Hypercore::new, the "
                "rebuilt changeset is completed, copied into the header and committed, entries are walked in log order, and whether a replay consumer runs for an entry depends only on the entry field it consumes — never on another field such as tree_upgrade (R2); the read gate — every storage read of get() is dominated by bitfield.get(index), the "
                "not-held edge returns Ok(None), has() is bitfield.get(index) (R3); append / clear placement — data offset = tree.byte_length before commit, bitfield update = [ancestors, +batch_length), clear "
-               "logs and drops exactly [start, end) (R4); observation provenance — AppendOutcome / Info come from the committed tree, commit copies the changeset, byte length accumulates node sizes (R5); loops that persist or apply one thing per element (batch blocks, changeset nodes, unflushed nodes, dirty pages, replayed nodes) do so for every element (R6); the bitfield page reader uses the writer's stride, page-relative little-endian words and reads every word of a complete page (R7); clear punches its hole into the data store only between the nearest held blocks (R8); FixedBitfield::set_range reports a change in any word of its range, so that the page reaches the file (R9 = C08.R6); the byte offset of a leaf is the sum of the lengths of the roots before it and of the left siblings passed on the way down (R10, path-sensitive affine dataflow over byte_offset_from_nodes).")
+               "logs and drops exactly [start, end) (R4); observation provenance — AppendOutcome / Info come from the committed tree, commit copies the changeset, byte length accumulates node sizes (R5); loops that persist or apply one thing per element (batch blocks, changeset nodes, unflushed nodes, dirty pages, replayed nodes) do so for every element (R6); the bitfield page reader uses the writer's stride, page-relative little-endian words and reads every word of a complete page (R7); clear punches its hole into the data store only between the nearest held blocks (R8); FixedBitfield::set_range reports a change in any word of its range, so that the page reaches the file (R9 = C08.R6); the byte offset of a leaf is the sum of the lengths of the roots before it and of the left siblings passed on the way down (R10, path-sensitive affine dataflow over byte_offset_from_nodes); the new-log header bits (R11 = C07.R5); an empty block is read and cleared without touching the store (R12); a delete is handed to a backend only under `offset < len()` of the same backend, because a store shrinks when a hole reaches its end and clearing again must be a no-op (R13).")
 NOT_DECIDED = ("byte equality of reads; that flat_tree's left_child / sibling visit the nodes R10 assumes; the hole computation in clear; flush cadence; that reopening changes no observation beyond R1/R2.")
 ASSUMPTIONS = ["flat_tree index arithmetic is correct"]
